@@ -14,12 +14,16 @@ CONSTANT Sample      \* TRUE: only emit a covering sample (quick tier); FALSE: e
 
 Quals8 == {"onmatch", "latch", "onchange", "increase", "decrease", "notnone", "asbool", "nocontrib"}
 
-\* y codes: 0 absent (a short row read by index), 1..3 the cells "1".."3", 10 "true", 11 "false"
+\* y codes: 0 absent (a short row read by index), 1..3 the cells "1".."3", 4 an empty cell (a value: the empty text, which is
+\* not None - notnone does not block it, latch and onchange compare it like any other value), 10 "true", 11 "false"
 YVal(c) == CASE c = 0 -> None
+             [] c = 4 -> VStr(<<>>)
              [] c \in 1..3 -> VStr(<<48 + c>>)
              [] c = 10 -> VStr(T_true)
              [] c = 11 -> VStr(T_false)
-YDom(Q) == IF "increase" \in Q \/ "decrease" \in Q THEN {0, 1, 2, 3} ELSE {0, 1, 2, 3, 10, 11}
+\* (the empty cell only where no ordering and no truth value is asked of it)
+YDom(Q) == IF "increase" \in Q \/ "decrease" \in Q THEN {0, 1, 2, 3}
+           ELSE IF "asbool" \in Q THEN {0, 1, 2, 3, 10, 11} ELSE {0, 1, 2, 3, 4, 10, 11}
 
 VARIABLES Q, ys, rests, j, x, hist
 vars == <<Q, ys, rests, j, x, hist>>
